@@ -607,6 +607,17 @@ impl CompactThetaSketch {
         Ok(entries)
     }
 
+    /// A stored theta must be a positive 63-bit value.
+    fn ensure_theta(theta: u64) -> Result<(), Error> {
+        if theta == 0 || theta > MAX_THETA {
+            Err(Error::deserial(format!(
+                "corrupted: theta must be in [1, {MAX_THETA}], got {theta}",
+            )))
+        } else {
+            Ok(())
+        }
+    }
+
     /// The entries of an image that declares itself ordered must be strictly ascending.
     fn ensure_ordered(entries: &[u64]) -> Result<(), Error> {
         if entries.windows(2).all(|w| w[0] < w[1]) {
@@ -633,6 +644,7 @@ impl CompactThetaSketch {
         let theta = cursor
             .read_u64_le()
             .map_err(insufficient_data("theta_long"))?;
+        Self::ensure_theta(theta)?;
 
         let empty = num_entries == 0 && theta == MAX_THETA;
         if empty {
@@ -713,6 +725,7 @@ impl CompactThetaSketch {
                 let theta = cursor
                     .read_u64_le()
                     .map_err(insufficient_data("theta_long"))?;
+                Self::ensure_theta(theta)?;
                 let empty = (num_entries == 0) && (theta == MAX_THETA);
                 let entries = Self::read_entries(&mut cursor, num_entries, theta)?;
                 Self::ensure_ordered(&entries)?;
@@ -765,6 +778,7 @@ impl CompactThetaSketch {
                     theta = cursor
                         .read_u64_le()
                         .map_err(insufficient_data("theta_long"))?;
+                    Self::ensure_theta(theta)?;
                 }
             }
             entries = Self::read_entries(&mut cursor, num_entries as usize, theta)?;
@@ -819,6 +833,7 @@ impl CompactThetaSketch {
         } else {
             MAX_THETA
         };
+        Self::ensure_theta(theta)?;
 
         // unpack num_entries
         let mut num_entries = 0usize;
